@@ -140,6 +140,13 @@ def run(ctx):
     import pskel as _pskel
     _pskel.rule_P_PRIM(ctx)
     _pskel.rule_P_SKELETON(ctx)
+    # naming-law lints over the modules this property lives in (sibling slips: truth<->budget, stamp<->punctuation, left<->right, swapped arguments)
+    import roles as _roles
+    _roles.rule_R_ROLE(ctx, modules=('conversion::', 'enum_narsese::', 'lexical::'))
+    _roles.rule_A_NAMES(ctx, modules=('conversion::', 'enum_narsese::', 'lexical::'))
+    # every formatter function against its reviewed emission skeleton
+    import emit as _emit
+    _emit.rule_F_SKELETON_ALL(ctx)
     ctx.undecided = ["equality of the two pipelines' values on every string (nesting, leniency on malformed input)"]
     ctx.assumptions = ["rustc HIR/name resolution is correct", "nar_dev_utils 0.42.3 dictionary semantics as read from its source"]
     ctx.trusted = ["rustc nightly front end (HIR, typeck)", "mirfacts driver", "python rule layer"]
